@@ -1,6 +1,6 @@
 """C16 - directed/undirected conversion preserves presence and isolates the copy."""
 import gen
-from props.base import PropBase, tup
+from props.base import PropBase, bigio_case, with_bigio, tup
 from props.graphcommon import state_case, known_nodes, has_probes, query_probes, Truth
 from props.suboracles import o_canon, o_snap, o_stream
 from props.c02 import expected as q_expected
@@ -17,6 +17,7 @@ def latest_ends(hist, directed):
     return {k: max(s) for k, s in tr.pres.items() if s}
 
 
+@with_bigio
 class C16(PropBase):
     id = 'C16'
     obs = {'todir', 'toundir', 'nodes', 'meta', 'has', 'ids', 'stream', 'ips', 'inter', 'nnodes', 'streamchk', 'add', 'nbrs', 'deg',
@@ -33,6 +34,8 @@ class C16(PropBase):
         return ['E2 histories (pairs (1,2),(2,1),(1,3),(1,1); <= 2 calls; t in 0..%d), both source classes, all conversions' % (2 if tier == 'quick' else 3)]
 
     def exhaustive_cases(self, tier):
+        # runs of 150 000 instants at epoch-size instants (implementation side only, interval arithmetic at the boundaries)
+        yield bigio_case(('span-conv', False, 150000, 1700000000000), ('span-conv', True, 150000, 2 ** 31 - 9))
         for directed in (False, True):
             for i, h in enumerate(gen.exhaustive_E2(max_len=2, tmax=2 if tier == 'quick' else 3)):
                 if tier != 'quick' or i % 3 == 0:
